@@ -35,6 +35,7 @@ structure Index.Live (i : Index) : Prop where
   ne : i.cols ≠ []
   pk : i.isPk = (i.name == pkName)
   typ : i.typ = .none ∨ i.typ = .unique
+  prev : i.prev = none      -- `previous` is set by `Table.Diff` only
 
 /-- every index / foreign key was created by the history read so far, and every index record is well-formed -/
 @[reducible] def ElemFresh (r : List Index × List ForeignKey) : Prop :=
